@@ -11,19 +11,19 @@ CHECKS = {
    note="Trusted: the VecDeque model, the simfmt serializer/deserializer written for this task, catch_unwind classification of documented panics. Labels stand for all element values (parametricity)."),
  "C02": dict(level="exploration", design="§4 C02, §3.2",
    technique=TECH + "seeded fault-feed streams (stuck feed, ties, spikes, scale jumps, gaps, signed zeros) through the real finite-window methods; per-step refinement against from-scratch reference models with a tracked rounding allowance (reduced fit: no schedule exists in this property)",
-   text="Per-step refinement of every finite-window method against its documented formula on the last `length` inputs, two-sided, within the frozen allowance D(t)=c_m*u*(n+t)*S. Thorough stratifies half of the runs over every length; streams up to 10^4 ticks. Samples the stream space; a clean batch is evidence, not proof.",
+   text="Per-step refinement of every finite-window method against its documented formula on the last `length` inputs, two-sided, within the frozen allowance D(t)=c_m*u*(n+t)*S; a second replica is built from element 0 and fed from element 1 on (the construction value is the prehistory whether or not it is delivered again). Feeds include a dyadic tick grid (exact sums, exact ties), levels of 1e+-20..1e+-60 and zero-volume pairs for VWMA. Thorough stratifies half of the runs over every length; streams up to 10^4 ticks. Samples the stream space; a clean batch is evidence, not proof.",
    note="Trusted: reference models written from the doc comments (DESIGN.md App. A), Neumaier-compensated f64 sums, drift constants frozen after calibration (10x worst observed, power of two)."),
  "C03": dict(level="exploration", design="§4 C03, §3.3",
    technique=TECH + "same engine as C02; oracle = free-running documented recurrence as tracked numbers (contraction of the error for exponential kinds, interval rule where Vidya's Chande factor is 0/0 or residue/residue)",
    text="Per-step refinement of the recursive methods against their recurrences on the whole stream so far; flat-after-movement regimes are injected on purpose. Samples streams and lengths (WSMA 1..127, TSI pairs, all others 1..254).",
    note="Trusted: reference recurrences (App. A); for Vidya the factor is only required to lie in [0,1] where its definition is 0/0."),
  "C04": dict(level="exploration", design="§4 C04",
-   technique=TECH + "order-pattern feeds (small alphabets incl. both zeros, saw-teeth of period n-1/n/n+1, monotone runs, equal extrema spaced n apart, stuck feed) through the real selection methods; exact comparison with from-scratch max/min/arg/median",
+   technique=TECH + "order-pattern feeds (small alphabets incl. both zeros, zeros of both signs as the extremum, saw-teeth of period n-1/n/n+1, monotone runs, equal extrema spaced n apart, stuck feed, subnormal magnitudes) through the real selection methods; exact comparison with from-scratch max/min/arg/median",
    text="Exact (up to the sign of zero) comparison of Highest, Lowest, HighestLowestDelta, HighestIndex, LowestIndex, SMM and MedianAbsDev's median with the from-scratch selection at every step.",
    note="Trusted: the from-scratch selection over a VecDeque of the last n inputs."),
  "C14": dict(level="exploration", design="§4 C14",
    technique=TECH + "pairs of streams with touches/equal series/zero base for the crossing detectors and streams longer than 4*PeriodType::MAX with plateaus and saw-teeth for the reversal detectors; exact comparison with the from-scratch detector",
-   text="Exact comparison of Cross/CrossAbove/CrossUnder and Upper/Lower/ReversalSignal with their definitional detectors at every step, including positions beyond PeriodType::MAX.",
+   text="Exact comparison of Cross/CrossAbove/CrossUnder and Upper/Lower/ReversalSignal with their definitional detectors at every step, including positions beyond PeriodType::MAX; the crossing detectors additionally as a replica built from pair 0 and fed from pair 1 on (the state set by new() is then observable).",
    note="Trusted: the reference detectors (newest-wins tie rule as documented in DESIGN.md App. A)."),
  "C09": dict(level="exploration", design="§4 C09, §2.5",
    technique=TECH + "two-run discipline: run A = new+next per element; run B = seeded schedule of delivery events (chunk boundaries incl. empty chunks, batch API per chunk: over/call/apply/into_fn/new_over/new_apply/IndicatorConfig::over/init_fn/dyn over), peeks, forks with interleaved different continuations; bitwise comparison per tick per replica",
@@ -39,15 +39,15 @@ CHECKS = {
    note="Strict build profile (debug assertions + overflow checks, as in the dev profile of the baseline). Documented minima from the doc comments. Known findings: the PeriodType::MAX family and NaN into SMM (known_findings.json)."),
  "C11": dict(level="exploration", design="§4 C11",
    technique=TECH + "shape monitor on every step of seeded runs; static replica vs three dyn replicas (tick-wise, config over, chunked instance over) compared bitwise; set() through static and dyn interface compared against the expected configuration tree read through the serde seam (partial fit: set() is a stateless clause, decided by seeded sampling)",
-   text="Every indicator, default and mutated valid configurations, every public parameter name (enumerated from the serialized configuration) with parsable and unparsable texts, unknown and near-miss names; shape/name/dyn equivalence at every step of fault-feed candle streams.",
+   text="Every indicator, default and mutated valid configurations, every public parameter name (enumerated from the serialized configuration) with parsable and unparsable texts, unknown and near-miss names; shape/name/dyn equivalence at every step of fault-feed candle streams; config-level over() of the dyn and the static interface on batches of 0..3 candles (valid and invalid configurations); the accessors value(i)/signal(i)/values()/signals()/lengths/size() of every result against each other incl. the documented panic beyond the length.",
    note="Public parameter names = pub fields of the configuration struct = fields of its serialized form (Example: `price`). Expected parse results are produced by the harness (decimal numbers, source names, 'kind-len')."),
  "C08": dict(level="exploration", design="§4 C08",
-   technique=TECH + "duplicate-delivery fault on the first tick: replicas R_k receive k extra leading copies of the first element (k in {1,2,n-1,n,n+1,3n,1000}, thorough up to 10^6); constancy during the duplicated prefix (exact for selections/signals, drift-free allowance for arithmetic) and replica agreement with R_0 afterwards; ill-conditioned steps identified by a few-ulp input perturbation replica",
+   technique=TECH + "duplicate-delivery fault on the first tick: replicas R_k receive k extra leading copies of the first element (k in {1,2,n-1,n,n+1,3n,1000}, thorough up to 10^6); constancy during the duplicated prefix (exact for selections/signals, drift-free allowance for arithmetic) and replica agreement with R_0 afterwards; ill-conditioned steps identified by three few-ulp input perturbation replicas (a quarter of the allowance counts)",
    text="Every method, wrapper, MA kind and indicator with seeded parameters, initial values of any magnitude/sign/zero, fault-feed continuations. The allowance for arithmetic outputs does not grow with the number of copies, so unbounded drift is detected at large k (thorough).",
    note="Allowance 2*D(0) with the largest frozen method constant; signals compared exactly while values are bit-identical and outside the allowance of zero (three-valued logic, DESIGN.md §3.4); steps whose value moves more than the allowance under a few-ulp perturbation of the inputs are exempt (ill-conditioned). Known findings: TrendStrengthIndex on constant input, RVI on zero-range stretches."),
  "C17": dict(level="exploration", design="§4 C17",
    technique=TECH + "converter runs with injected boundary-landing price faults for Renko (price exactly on / one ulp below / above the next brick boundary read from the live serialized state, k bricks away, multi-brick jumps, reversals), exactly-once-emission and conservation oracles; CollapseTimeframe streaming vs batch collapse on the whole stream and seeded sub-ranges; HeikinAshi validity monitor",
-   text="Seeded search over candle streams, periods 1..40, brick sizes in [eps,1) and all price sources; per-step oracles: no panic, emission iff boundary reached, contiguity, equal relative size, one direction, volume conservation, iterator consistency; collapse aggregation and batch/streaming equality.",
+   text="Seeded search over candle streams, periods 1..40 (one collapse run in eight: 255..2140, beyond 8 bits' worth of inputs), brick sizes in [eps,1) and all price sources; per-step oracles: no panic, emission iff boundary reached, contiguity, equal relative size, one direction, volume conservation, iterator consistency; collapse aggregation and batch/streaming equality.",
    note="Boundaries are read from Renko's serialized state through the serde seam (no hook). The aggregated OHLCV view of RenkoOutput is outside the property's statement and only counted as an observation (its close() is base + size*len although bricks are relative)."),
  "C12": dict(level="exploration", design="§4 C12",
    technique=TECH + "invariant monitors evaluated at every step of seeded indicator/method runs while the feed injects the regimes the property names: volatile -> exactly flat (stuck feed longer than every window, degenerate bars) -> volatile, zero-volume bars, spikes and scale jumps (reduced fit: monitoring of state machines under feed faults, no schedule)",
@@ -55,20 +55,20 @@ CHECKS = {
    note="Value-slot meanings from DESIGN.md App. B. RSI/Stochastic/SMI/Envelopes range monitors only for MA kinds that cannot overshoot; volume-based sources exempt; finiteness exempt where the formula is undefined (zero window volume, correlation of a constant window)."),
  "C19": dict(level="exploration", design="§4 C19, §2.7",
    technique=TECH + "heterogeneous builds as replicas: the same seeded programs (Window observers/iterators/rebuilds, methods and indicators with ticks, batches, peeks, snapshots, crash-restores, forks) are executed by the default build and by the unsafe_performance build and the transcripts diffed; a second program set is executed by the unsafe_performance build inside the Miri interpreter, whose undefined-behaviour detector (bounds, validity, Stacked Borrows aliasing) is the in-bounds oracle",
-   text="Transcript equality on 600 (quick) / 30 000 (thorough, also plain release profile) programs filtered to those on which the default build does not panic; 24 / 400 programs under Miri, biased to Window/SMM/median users. Samples programs; Miri decides only the executions it ran.",
+   text="Transcript equality on 3 000 (quick) / 30 000 (thorough, also plain release profile) programs filtered to those on which the default build does not panic; 24 / 400 programs under Miri, biased to Window/SMM/median users. Samples programs; Miri decides only the executions it ran.",
    note="Programs are generated by the default build and handed over as explicit JSON. Miri's Stacked Borrows is experimental but is the strictest available in-bounds/aliasing oracle here (ASan needs a rebuilt std; not attempted). Transcripts produced under Miri are not compared."),
  "C20": dict(level="exploration", design="§4 C20, §2.7",
-   technique=TECH + "heterogeneous builds as replicas: programs whose parameters fit u8 executed by the default, period_type_u16, period_type_u32, period_type_u64 builds (thorough: + unsafe_performance combination), transcripts diffed; the definitional engines of C01/C02/C04/C14 re-run inside the u16 build with windows up to 600/3000 and streams longer than 2^16 for the position counters, and C01-C04/C14 inside the value_type_f32 build with u = 2^-23 and the reference in f64",
+   technique=TECH + "heterogeneous builds as replicas: programs whose parameters fit u8 executed by the default, period_type_u16, period_type_u32, period_type_u64 builds (thorough: + unsafe_performance combination), transcripts diffed; the definitional engines of C01/C02/C04/C14 re-run inside the u16 build with windows up to 600/3000 and streams longer than 2^16 for the position counters, and C01-C04/C14 plus the indicator references C05/C06 and the averaging laws C15 inside the value_type_f32 build with u = 2^-23 and the reference in f64",
    text="Transcript equality of results (integers by value; serialized internal state is not part of the transcript because position counters of different width may legitimately be re-based differently) plus in-build definitional checks. Samples programs and streams.",
    note="In the f32 build the feed keeps magnitudes where squares and window sums stay far from f32::MAX (overflow is not a rounding effect). u32/u64 builds run transcripts only (their extra capacity cannot be allocated)."),
  "C15": dict(level="exploration", design="§4 C15",
    technique=TECH + "replica groups: instances of the same kind and length fed related streams (affine image, constant, sum of two streams, impulse) on fault-feed inputs; algebraic relations between the replicas' outputs checked per step with the tracked allowance; impulse responses compared with closed-form documented weight profiles (reduced fit: metamorphic relations between runs, no schedule)",
-   text="All 15 MA kinds of the MA constructor plus Conv and VWMA; five laws; a and b from a fixed set incl. negative a; flat-after-volatile regimes enabled; the impulse response is stratified over every length 1..=254 (thorough, complete in the length dimension).",
+   text="All 15 MA kinds of the MA constructor plus Conv and VWMA; five laws; a and b from a fixed set incl. negative a and the exact power-of-two factors 2^-80 and 2^70 (b = 0); VWMA with zero-volume pairs inside the window; flat-after-volatile regimes enabled; the impulse response is stratified over every length 1..=254 (thorough, complete in the length dimension).",
    note="Allowance 2048*u*(n+t)*M (twice the largest frozen drift constant), VWMA with the quotient-of-running-sums scaling. Constant reproduction read as fixed point up to rounding of the documented normalisation; bit-exact reproduction is counted in the evidence."),
  "C07": dict(level="exploration", design="§4 C07, §3.2",
-   technique=TECH + "long simulated time (quick 2*10^6, thorough 10^7 and 3*10^7 ticks per method) on regime streams with faults far in the past; definitional oracle re-established at late checkpoints by a reference model primed with the last window and told the true history (t, M), allowance linear in t; late-joining fresh real replica primed with the last window must agree with the long-running instance; range monitors at every late step for the ratio indicators named in the anchors",
-   text="31 finite-window/detector methods, 13 recursive methods (free-running recurrence at every step), 10 finite-window indicators (late join) and CMO/MFI/RSI/Parabolic SAR (range monitors at every step). Checkpoints: first 2000 steps, multiples of 2^8 (first 64) and 2^16, PeriodType::MAX +-1, 60/300 seeded late positions, end of run.",
-   note="Replay files carry feed seed + length (sequential generator) instead of 10^7 explicit values. Ratio-of-running-sums indicators are not compared with a fresh replica near their singular points (both sides divide residue there): see DESIGN.md Corrections."),
+   technique=TECH + "long simulated time (quick 2*10^6, thorough 10^7 and 3*10^7 ticks per method) on regime streams with faults far in the past; definitional oracle re-established at late checkpoints by a reference model primed with the last window and told the true history (t, M), allowance linear in t; late-joining fresh real replica primed with the last window must agree with the long-running instance; range monitors at every late step for the ratio indicators named in the anchors; model family: every indicator with a reference model on 7*10^4..4*10^5 candles of a long regime stream, very long flats, or a one-sided trend (up/down x ripple/strictly monotone) against that model at every step",
+   text="31 finite-window/detector methods, 13 recursive methods (free-running recurrence at every step), 10 finite-window indicators (late join) and CMO/MFI/RSI/Parabolic SAR (range monitors at every step); 34 indicators in the model family (12 / 36 runs each: values within tracked bounds whose drift terms are linear in t, signals in three-valued logic with counters of unbounded width, a panic after a long prefix is a violation). Checkpoints: first 2000 steps, multiples of 2^8 (first 64) and 2^16, PeriodType::MAX +-1, 60/300 seeded late positions, end of run.",
+   note="Replay files carry feed seed + length (sequential generator) instead of 10^7 explicit values. Ratio-of-running-sums indicators are not compared with a fresh replica near their singular points (both sides divide residue there): see DESIGN.md Corrections. Known finding: super-linear drift of the double-accumulator averages (WMA/SWMA/LinReg/HMA) beyond 1e4 candles."),
  "C05": dict(level="exploration", design="§4 C05, §3.5, App. B",
    technique=TECH + "seeded valid-candle fault feeds (flats, gaps, zero-volume bars, spikes, scale jumps) through all 36 real indicators with seeded valid configurations (every MA kind, boundary periods); per-step refinement of the raw values against reference indicators composed from the tracked-number reference methods (reduced fit: no schedule exists in this property)",
    text="All 36 shipped indicators have a reference model (suts_covered in the evidence); values compared two-sided within the tracked allowance; undefined quotients exempt and counted (about 4%). Samples configurations and streams.",
